@@ -38,6 +38,10 @@ def run(chk, tier):
     estimate(chk, prog)
     window(chk, prog)
     key_equality(chk, prog)
+    # the (type, waveform, phase) key and the static default are read through the cut's two coded accessors one level down
+    # (C11's tables): an accessor that aliases a code changes the default wait and the history bucket
+    from rules import c11
+    c11.cut_codes(chk, sym.Evaluator(prog))
 
 
 def key_equality(chk, prog):
